@@ -168,7 +168,7 @@ impl<'a, 'tcx> Ctx<'a, 'tcx> {
             }
             Rvalue::UnaryOp(op, a) => format!("{{\"k\":\"un\",\"op\":{},\"a\":{}}}", esc(&format!("{:?}", op)), self.operand(a)),
             Rvalue::Cast(kind, o, t) => format!("{{\"k\":\"cast\",\"ck\":{},\"o\":{},\"ty\":{}}}", esc(&format!("{:?}", kind)), self.operand(o), esc(&format!("{}", t))),
-            Rvalue::Discriminant(p) => format!("{{\"k\":\"discr\",\"pl\":{}}}", self.place(p)),
+            Rvalue::Discriminant(p) => format!("{{\"k\":\"discr\",\"pl\":{},\"ty\":{}}}", self.place(p), esc(&format!("{}", p.ty(&self.body.local_decls, self.tcx).ty))),
             Rvalue::CopyForDeref(p) => format!("{{\"k\":\"use\",\"o\":{{\"k\":\"copy\",\"pl\":{}}}}}", self.place(p)),
             Rvalue::Aggregate(kind, fields) => {
                 let refs: Vec<&Operand<'tcx>> = fields.iter().collect();
